@@ -36,6 +36,7 @@ namespace net
     else
     {
       reg(variable(ret));
+      tlist.push_back(variable(ret));
       add_fact(f_n(F::IFF, {f_lit(ret), meaning}));
       if (on_fresh)
         on_fresh(variable(ret));
